@@ -17,7 +17,7 @@ THEOREMS = ["Lbfgsb.C11.ls_points_in_box", "Lbfgsb.C11.ls_evals_le_cap", "Lbfgsb
             "Lbfgsb.C11.maxStep_feasible", "Lbfgsb.C11.ls_trials_on_ray", "Lbfgsb.C11.dcsrch_steps_in_range",
             "Lbfgsb.C11.ls_result_in_range", "Lbfgsb.C11.ls_steps_in_range", "Lbfgsb.C11.ls_evals_on_ray", "Lbfgsb.C11.dcsrch_conv_is_wolfe", "Lbfgsb.C11.wolfe_gives_curvature", "Lbfgsb.C11.concreteOracles_stepper",
             "Lbfgsb.C11.concrete_ls_steps_in_range",
-            "Lbfgsb.C14.display_evaluates_nothing", "Lbfgsb.C11.maxAllowedStep_units"]
+            "Lbfgsb.C14.display_evaluates_nothing", "Lbfgsb.C11.maxAllowedStep_units", "Lbfgsb.C11.maxAllowedStep_shift"]
 MODULES = ["LbfgsbVerif.Props.C11",
             "LbfgsbVerif.Props.C14", "LbfgsbVerif.Props.C11Units"]
 
